@@ -154,6 +154,9 @@ def w_pdb(m, lay, rng, variant):
 
 def w_gro(m, lay, rng, variant):
     vel = np.array([[round(0.1 * (-1) ** (i + k) + 0.0007 * (3 * i + k), 4) for k in range(3)] for i in range(m.natom)])
+    if variant == "widevel":
+        # every velocity fills its eight columns: together with wide positions no blank is left on the atom line
+        vel = np.array([[round(-10.1 - 0.0731 * ((3 * i + k) % 90), 4) for k in range(3)] for i in range(m.natom)])
     for k, name in enumerate(("vx", "vy", "vz")):
         hit = getattr(m, "fill", {}).get(("gro_atom", name))
         if hit is not None:
@@ -967,7 +970,7 @@ WRITERS = {"xyz": w_xyz, "extxyz": w_extxyz, "sdf": w_sdf, "pdb": w_pdb, "gromac
            "gaussianinput": w_gaussianinput, "json_qcschema": w_json, "fchk": w_fchk, "gaussianlog": w_gaussianlog,
            "orcalog": w_orcalog, "gamess": w_gamess, "qchemlog": w_qchemlog, "wfx": w_wfx, "mwfn": w_mwfn, "cp2klog": w_cp2klog}
 VARIANTS = {"xyz": ["plain", "numbers"], "poscar": ["direct", "cartesian", "selective", "scaled", "repeated", "volume", "volume_cartesian"], "cube": ["five", "ragged", "six", "one", "nval"],
-            "gromacs": ["rect", "triclinic", "novel", "novel_triclinic"], "mol2": ["plain", "statusbits", "blanks"], "extxyz": ["plain", "noprops"], "json_qcschema": ["plain", "massnumbers"], "gaussianlog": ["plain", "twoel"], "orcalog": ["plain", "opt", "longscf"], "gamess": ["plain", "opt"],
+            "gromacs": ["rect", "triclinic", "novel", "novel_triclinic", "widevel"], "mol2": ["plain", "statusbits", "blanks"], "extxyz": ["plain", "noprops"], "json_qcschema": ["plain", "massnumbers"], "gaussianlog": ["plain", "twoel"], "orcalog": ["plain", "opt", "longscf"], "gamess": ["plain", "opt"],
             "qchemlog": ["plain", "unrestricted", "freq"], "wfx": ["plain", "gradient", "gradient_permuted"], "fchk": ["plain", "shuffled"],
             "gaussianinput": ["plain", "route_units", "route_long"], "fcidump": ["plain", "upper"], "mwfn": ["plain", "ecp"], "chgcar": ["plain", "lefthanded"], "locpot": ["plain", "lefthanded"],
             "cp2klog": ["ae_con", "pp_con", "ae_unc", "pp_unc", "ae_con_u", "pp_unc_u", "ae_unc_u", "pp_con_u"]}
